@@ -1938,14 +1938,40 @@ func environIsLowest(c *Check, a *Anchors) {
 
 // memoOnlySuccess (C11): a failed evaluation is not remembered.
 func memoOnlySuccess(c *Check, a *Anchors) {
-	c.Rule("memo-only-success", "in the dynamic-variable evaluator every store into the memo table (Compiler.dynamicCache) is dominated by the nil edge of the command that produced the value: the partial output of a failed `sh:` command must not be served to later evaluations of the same text in this invocation (a task would then see a value that depends on an earlier task's failure)")
+	c.Rule("memo-only-success", "in the dynamic-variable evaluator every store into the memo table (Compiler.dynamicCache) is dominated by the nil edge of the command that produced the value (execext.RunCommand, or a helper of the evaluator that runs it and returns a nil error only when the command succeeded): the partial output of a failed `sh:` command must not be served to later evaluations of the same text in this invocation (a task would then see a value that depends on an earlier task's failure)")
 	fb := a.HandleDynamicVar
 	if fb == nil {
 		c.Errorf("memo-only-success: dynamic-variable evaluator not resolved")
 		return
 	}
+	group := c.P.groupOf(fb, 2)
+	// helpers of the evaluator that run the command themselves
+	producer := map[*FuncBody]bool{}
+	for _, g := range group {
+		if g == fb {
+			continue
+		}
+		for _, call := range callsIn(g, true) {
+			if isFunc(callee(g.Info(), call), PkgExecext, "", "RunCommand") {
+				producer[g] = true
+			}
+		}
+	}
+	label := func(g *FuncBody) Labeler {
+		return func(call *ast.CallExpr, obj types.Object) string {
+			if isFunc(obj, PkgExecext, "", "RunCommand") {
+				return "run"
+			}
+			for p := range producer {
+				if p != g && a.is(obj, p) {
+					return "run"
+				}
+			}
+			return ""
+		}
+	}
 	n := 0
-	for _, g := range c.P.groupOf(fb, 2) {
+	for _, g := range group {
 		info := g.Info()
 		hasStore := false
 		inspectBody(g.Body, func(nd ast.Node) bool {
@@ -1958,16 +1984,11 @@ func memoOnlySuccess(c *Check, a *Anchors) {
 			}
 			return true
 		})
-		if !hasStore {
+		if !hasStore && !producer[g] {
 			continue
 		}
 		c.Fn(g)
-		f := NewFlow(c.P, g, func(call *ast.CallExpr, obj types.Object) string {
-			if isFunc(obj, PkgExecext, "", "RunCommand") {
-				return "run"
-			}
-			return ""
-		})
+		f := NewFlow(c.P, g, label(g))
 		f.Run()
 		for node, st := range f.At {
 			as, ok := node.(*ast.AssignStmt)
@@ -1982,6 +2003,18 @@ func memoOnlySuccess(c *Check, a *Anchors) {
 				n++
 				c.Decide(st.Has("called:run") && st.Has("nil:run"), "memo-only-success", fmt.Sprintf("store#%d@%s", n, fnDisplay(g)), as.Pos(), "stored only after the command succeeded",
 					"the memo table is written on a path where the `sh:` command's error is not established nil (must-facts: "+st.String()+"): the output of a failed command is cached and returned, without an error, to the next evaluation of the same command text")
+			}
+		}
+		if producer[g] {
+			// the helper's own discipline: a nil error only after the command succeeded
+			for i, r := range f.Returns {
+				res := errResult(r)
+				if res == nil || !isNilLit(info, res) || !f.At[r].Has("called:run") {
+					continue
+				}
+				n++
+				c.Decide(f.At[r].Has("nil:run"), "memo-only-success", fmt.Sprintf("helper-success-return#%d@%s", i+1, fnDisplay(g)), r.Pos(), "the helper reports success only after the command succeeded",
+					"the helper that runs the `sh:` command returns a nil error on a path where the command's error is not established nil: its caller stores the value in the memo table as if the command had succeeded")
 			}
 		}
 	}
@@ -2073,4 +2106,751 @@ func templatePerString(c *Check, a *Anchors) {
 		}
 	}
 	c.Floor("template-per-string", n, 3)
+}
+
+// extrasWin (C14 / C02): EXIT_CODE and the loop variables shadow ordinary variables of the same name, not the reverse.
+func extrasWin(c *Check, a *Anchors) {
+	c.Rule("extras-win", "in every templater function that receives an `extra` map, the data handed to the template engine is the variable map with the extras copied OVER it (maps.Copy(data, extra) onto a clone of the cache map): the extras are never the base that the variable map is copied over — otherwise a variable named EXIT_CODE / ITEM / KEY anywhere in scope (Taskfile default, caller, process environment) replaces the real exit code or loop value")
+	n := 0
+	for _, fb := range c.P.BodiesIn(PkgTemplater) {
+		if fb.Decl == nil {
+			continue
+		}
+		info := fb.Info()
+		var extra *types.Var
+		for _, fld := range fb.Type.Params.List {
+			for _, id := range fld.Names {
+				if v, ok := info.Defs[id].(*types.Var); ok && id.Name == "extra" {
+					if _, isMap := v.Type().Underlying().(*types.Map); isMap {
+						extra = v
+					}
+				}
+			}
+		}
+		if extra == nil {
+			continue
+		}
+		// only functions that build template data themselves (mention the cache map)
+		usesCacheMap := false
+		inspectDeep(fb.Body, func(nd ast.Node) bool {
+			if sel, ok := nd.(*ast.SelectorExpr); ok && fieldSel(info, sel, PkgTemplater, "Cache", "cacheMap") {
+				usesCacheMap = true
+			}
+			return true
+		})
+		if !usesCacheMap {
+			continue
+		}
+		n++
+		c.Fn(fb)
+		over, under := false, ""
+		inspectDeep(fb.Body, func(nd ast.Node) bool {
+			call, ok := nd.(*ast.CallExpr)
+			if !ok || !isFunc(callee(info, call), "maps", "", "Copy") || len(call.Args) != 2 {
+				return true
+			}
+			dst, src := call.Args[0], call.Args[1]
+			dstFromExtra := mentionsVia(info, fb.Body, dst, extra, 2)
+			srcIsExtra := varOf(info, src) == extra
+			srcIsCache := false
+			ast.Inspect(src, func(m ast.Node) bool {
+				if sel, ok := m.(*ast.SelectorExpr); ok && fieldSel(info, sel, PkgTemplater, "Cache", "cacheMap") {
+					srcIsCache = true
+				}
+				return true
+			})
+			if srcIsExtra && !dstFromExtra {
+				over = true
+			}
+			if srcIsCache && dstFromExtra {
+				under = exprStr(call)
+			}
+			return true
+		})
+		switch {
+		case under != "":
+			c.Bad("extras-win", "data@"+fnDisplay(fb), fb.Body.Pos(), "`"+under+"` copies the variable map over a copy of the extras: an ordinary variable named like an extra (EXIT_CODE, ITEM, KEY) shadows it")
+		case !over:
+			c.Bad("extras-win", "data@"+fnDisplay(fb), fb.Body.Pos(), "no maps.Copy(data, extra) onto a copy of the variable map: the extras do not reach the template data (or not with priority)")
+		default:
+			c.OK("extras-win", "data@"+fnDisplay(fb), fb.Body.Pos(), "extras copied over a clone of the variable map")
+		}
+	}
+	c.Floor("extras-win", n, 2)
+}
+
+// deferIndexConsistent (C14): the deferred runner renders and runs the same element.
+func deferIndexConsistent(c *Check, a *Anchors) {
+	c.Rule("defer-index-consistent", "in the deferred-command runner every Cmds[...] indexing is applied to the compiled task it was handed (the one it forwards to the command runner with the same index): the definition's command list does not line up with the compiled one as soon as a for-loop expanded or a null entry was dropped, so reading the text from the definition renders — and runs — a different entry")
+	fb := a.DeferRunner
+	if fb == nil {
+		c.Errorf("defer-index-consistent: deferred-command runner not resolved")
+		return
+	}
+	c.Fn(fb)
+	info := fb.Info()
+	// the task parameter forwarded to the command runner
+	var fwd *types.Var
+	for _, call := range callsIn(fb, false) {
+		if a.is(callee(info, call), a.CmdRunner) {
+			for _, arg := range call.Args {
+				if v := varOf(info, arg); v != nil {
+					if nt := namedOf(v.Type()); nt != nil && nt.Obj().Name() == "Task" && isParamOf(info, fb, v) {
+						fwd = v
+					}
+				}
+			}
+		}
+	}
+	if fwd == nil {
+		c.Errorf("defer-index-consistent: the deferred runner does not forward a *ast.Task parameter to the command runner")
+		return
+	}
+	n := 0
+	inspectBody(fb.Body, func(nd ast.Node) bool {
+		ix, ok := nd.(*ast.IndexExpr)
+		if !ok || !fieldSel(info, ix.X, PkgAst, "Task", "Cmds") {
+			return true
+		}
+		n++
+		sel := ast.Unparen(ix.X).(*ast.SelectorExpr)
+		c.Decide(varOf(info, sel.X) == fwd, "defer-index-consistent", fmt.Sprintf("Cmds-index#%d@%s", n, fnDisplay(fb)), ix.Pos(), "indexes the compiled task that is forwarded to the command runner",
+			"`"+exprStr(ix)+"` indexes the command list of `"+exprStr(sel.X)+"`, not of the compiled task `"+fwd.Name()+"` that the runner executes with the same index: after a for-loop expansion the two lists differ, so another entry's text is rendered into the deferred slot")
+		return true
+	})
+	c.Floor("defer-index-consistent", n, 1)
+}
+
+// fuzzyTrainedOnNames (C15): the suggestion model knows every name a task can be requested by.
+func fuzzyTrainedOnNames(c *Check, a *Anchors) {
+	c.Rule("fuzzy-trained-on-names", "the function that trains the 'did you mean' model feeds it, for every task of the merged Taskfile, the name the task is registered under (the key of the task table, or Task.Task) and its aliases — not a display attribute such as Name() (which returns the label when one is set): a typo of a labelled task's name must still be answered with the closest existing task name")
+	var trainer *FuncBody
+	for _, fb := range c.P.BodiesIn(PkgTask) {
+		if fb.Decl == nil {
+			continue
+		}
+		info := fb.Info()
+		inspectBody(fb.Body, func(nd ast.Node) bool {
+			if as, ok := nd.(*ast.AssignStmt); ok {
+				for _, l := range as.Lhs {
+					if fieldSel(info, l, PkgTask, "Executor", "fuzzyModel") {
+						trainer = fb
+					}
+				}
+			}
+			return true
+		})
+	}
+	if trainer == nil {
+		c.Errorf("fuzzy-trained-on-names: no function assigns Executor.fuzzyModel")
+		return
+	}
+	c.Fn(trainer)
+	info := trainer.Info()
+	n := 0
+	inspectBody(trainer.Body, func(nd ast.Node) bool {
+		r, ok := nd.(*ast.RangeStmt)
+		if !ok {
+			return true
+		}
+		call, ok := ast.Unparen(r.X).(*ast.CallExpr)
+		if !ok {
+			return true
+		}
+		fn, ok := callee(info, call).(*types.Func)
+		if !ok || fn.Pkg() == nil || fn.Pkg().Path() != PkgAst || namedOf(fn.Type().(*types.Signature).Recv().Type()) == nil || namedOf(fn.Type().(*types.Signature).Recv().Type()).Obj().Name() != "Tasks" {
+			return true
+		}
+		n++
+		var keyVar *types.Var
+		if fn.Name() == "All" || fn.Name() == "Keys" {
+			if r.Key != nil {
+				keyVar = varOf(info, r.Key)
+			}
+		}
+		name, aliases := false, false
+		ast.Inspect(r.Body, func(m ast.Node) bool {
+			ac, ok := m.(*ast.CallExpr)
+			if !ok {
+				return true
+			}
+			isAppend := isBuiltin(info, ac, "append")
+			isConcat := isFunc(callee(info, ac), "slices", "", "Concat")
+			if !isAppend && !isConcat {
+				return true
+			}
+			for _, arg := range ac.Args[1:] {
+				if keyVar != nil && varOf(info, arg) == keyVar {
+					name = true
+				}
+				if fieldSel(info, arg, PkgAst, "Task", "Task") {
+					name = true
+				}
+				if fieldSel(info, arg, PkgAst, "Task", "Aliases") {
+					aliases = true
+				}
+			}
+			return true
+		})
+		c.Decide(name, "fuzzy-trained-on-names", "names@"+fnDisplay(trainer), r.Pos(), "the registered name of every task is a training word",
+			"the training loop never appends the task-table key (or Task.Task): the model is trained on something else (e.g. Name(), the label), so a mistyped task name gets no suggestion, or one that is not a task name")
+		c.Decide(aliases, "fuzzy-trained-on-names", "aliases@"+fnDisplay(trainer), r.Pos(), "the aliases of every task are training words",
+			"the training loop does not add Task.Aliases to the model")
+		return true
+	})
+	c.Floor("fuzzy-trained-on-names", n, 1)
+}
+
+// aliasFromLocalName (C15 / C08): namespace aliases are built from the task's name inside its own file.
+func aliasFromLocalName(c *Check, a *Anchors) {
+	c.Rule("alias-from-local-name", "in Tasks.Merge every call of the namespacing helper is applied to a name of the INCLUDED file (the loop key, a dependency / call target, an alias of the original task): a field that the same iteration has already rewritten with the namespace (task.Task, task.Aliases[i] ...) is not namespaced a second time — <include-alias>:<task> must resolve, <include-alias>:<namespace>:<task> must not")
+	merge := c.P.Func(PkgAst, "Tasks", "Merge")
+	if merge == nil {
+		c.Errorf("alias-from-local-name: Tasks.Merge not found")
+		return
+	}
+	c.Fn(merge)
+	info := merge.Info()
+	// positions at which a field of the copied task is assigned a namespaced value
+	type asg struct {
+		field string
+		pos   token.Pos
+	}
+	var rewrites []asg
+	isHelperCall := func(e ast.Expr) bool {
+		call, ok := ast.Unparen(e).(*ast.CallExpr)
+		if !ok {
+			return false
+		}
+		for _, arg := range call.Args {
+			if fieldSel(info, arg, PkgAst, "Include", "Namespace") {
+				return true
+			}
+		}
+		return false
+	}
+	inspectBody(merge.Body, func(nd ast.Node) bool {
+		if as, ok := nd.(*ast.AssignStmt); ok && len(as.Lhs) == 1 && len(as.Rhs) == 1 {
+			if sel, ok := ast.Unparen(as.Lhs[0]).(*ast.SelectorExpr); ok && fieldSel(info, sel, PkgAst, "Task", sel.Sel.Name) {
+				namespaced := isHelperCall(as.Rhs[0])
+				if v := varOf(info, as.Rhs[0]); v != nil {
+					for _, d := range defsOf(info, merge.Body, v) {
+						if isHelperCall(d) {
+							namespaced = true
+						}
+					}
+				}
+				if namespaced {
+					rewrites = append(rewrites, asg{sel.Sel.Name, as.Pos()})
+				}
+			}
+		}
+		return true
+	})
+	n := 0
+	ord := map[string]int{}
+	for _, call := range callsIn(merge, true) {
+		fn, ok := callee(info, call).(*types.Func)
+		if !ok || fn.Pkg() == nil || fn.Pkg().Path() != PkgAst || len(call.Args) != 2 {
+			continue
+		}
+		if d := c.P.DeclOf(fn); d == nil || d.Type.Results == nil || fn.Type().(*types.Signature).Recv() != nil {
+			continue
+		}
+		if types.TypeString(fn.Type().(*types.Signature).Results().At(0).Type(), nil) != "string" {
+			continue
+		}
+		n++
+		bad := ""
+		for _, arg := range call.Args {
+			sel, ok := ast.Unparen(arg).(*ast.SelectorExpr)
+			if !ok || !fieldSel(info, sel, PkgAst, "Task", sel.Sel.Name) {
+				continue
+			}
+			for _, rw := range rewrites {
+				if rw.field == sel.Sel.Name && rw.pos < call.Pos() {
+					bad = exprStr(sel)
+				}
+			}
+		}
+		c.Decide(bad == "", "alias-from-local-name", ordinal(ord, "helper-call@"+fnDisplay(merge)), call.Pos(), "applied to a name of the included file",
+			"the namespacing helper is applied to `"+bad+"`, which this iteration has already rewritten with the include's namespace: the resulting alias is <alias>:<namespace>:<task> instead of <alias>:<task>")
+	}
+	c.Floor("alias-from-local-name", n, 4)
+}
+
+// containerValuesNonNil (C16): a YAML null never becomes a nil element of an ordered container.
+func containerValuesNonNil(c *Check, a *Anchors) {
+	c.Rule("container-values-non-nil", "in the decoders of taskfile/ast (UnmarshalYAML) every pointer stored into an ordered container (Tasks / Vars / Includes / Matrix .Set) is the address of a local value or literal — never a pointer variable that yaml filled through Decode(&ptr): yaml.v3 leaves such a pointer nil for a null node (and does not call the element's own UnmarshalYAML), and the readers of these containers dereference their elements without a nil test")
+	n := 0
+	ord := map[string]int{}
+	for _, fb := range c.P.BodiesIn(PkgAst) {
+		if fb.Decl == nil || fb.Decl.Name.Name != "UnmarshalYAML" {
+			continue
+		}
+		info := fb.Info()
+		for _, call := range callsIn(fb, true) {
+			fn, ok := callee(info, call).(*types.Func)
+			if !ok || fn.Name() != "Set" || fn.Pkg() == nil || fn.Pkg().Path() != PkgAst || len(call.Args) != 2 {
+				continue
+			}
+			tv, ok := info.Types[call.Args[1]]
+			if !ok {
+				continue
+			}
+			if _, isPtr := tv.Type.Underlying().(*types.Pointer); !isPtr {
+				continue
+			}
+			n++
+			c.Fn(fb)
+			arg := ast.Unparen(call.Args[1])
+			okArg, why := false, ""
+			switch x := arg.(type) {
+			case *ast.UnaryExpr:
+				okArg = x.Op == token.AND
+			case *ast.CallExpr:
+				okArg = true // constructor result
+			default:
+				if v := varOf(info, arg); v != nil {
+					// a pointer variable: every definition must be an address-of / constructor, and it must not be a Decode target
+					decoded := false
+					inspectDeep(fb.Body, func(m ast.Node) bool {
+						if dc, ok := m.(*ast.CallExpr); ok {
+							if dfn, ok := callee(info, dc).(*types.Func); ok && dfn.Name() == "Decode" && len(dc.Args) == 1 {
+								if u, ok := ast.Unparen(dc.Args[0]).(*ast.UnaryExpr); ok && u.Op == token.AND && varOf(info, u.X) == v {
+									decoded = true
+								}
+							}
+						}
+						return true
+					})
+					tested := false
+					inspectDeep(fb.Body, func(m ast.Node) bool {
+						if be, ok := m.(*ast.BinaryExpr); ok && (be.Op == token.EQL || be.Op == token.NEQ) && varOf(info, be.X) == v && isNilLit(info, be.Y) {
+							tested = true
+						}
+						return true
+					})
+					okArg = !decoded || tested
+					why = "`" + v.Name() + "` is a pointer that yaml fills through Decode(&" + v.Name() + ") and is never compared with nil"
+				}
+			}
+			if why == "" {
+				why = "`" + exprStr(arg) + "` is not the address of a local value"
+			}
+			c.Decide(okArg, "container-values-non-nil", ordinal(ord, "Set@"+fnDisplay(fb)), call.Pos(), "the stored pointer is the address of a decoded value",
+				why+": a null entry (`KEY:` / `KEY: ~`) is stored as a nil element and dereferenced when the task is compiled or listed (nil-pointer panic instead of a decode error)")
+		}
+	}
+	c.Floor("container-values-non-nil", n, 4)
+}
+
+// lockReleasedOnEveryExit (C16 / C07): no return leaves a mutex locked.
+func lockReleasedOnEveryExit(c *Check, a *Anchors, rule string) {
+	c.Rule(rule, "in every function of Task's own code that locks a sync.Mutex / RWMutex field without deferring the unlock, no return statement is reached with the mutex held on every path leading to it (must-dataflow: Lock establishes `held`, Unlock and a registered deferred Unlock discharge it): an early error return that skips the unlock blocks every later user of the lock — the next dynamic variable, the next task — for ever, so the invocation hangs instead of ending with the diagnosed error")
+	n := 0
+	ord := map[string]int{}
+	for _, fb := range c.P.Bodies() {
+		if !strings.HasPrefix(fb.Pkg.PkgPath, Mod) || bceSkipPkgs[fb.Pkg.PkgPath] {
+			continue
+		}
+		info := fb.Info()
+		muKey := func(call *ast.CallExpr) (string, string) {
+			sel, ok := ast.Unparen(call.Fun).(*ast.SelectorExpr)
+			if !ok {
+				return "", ""
+			}
+			fn, ok := callee(info, call).(*types.Func)
+			if !ok || fn.Pkg() == nil || fn.Pkg().Path() != "sync" {
+				return "", ""
+			}
+			switch fn.Name() {
+			case "Lock", "Unlock", "RLock", "RUnlock":
+			default:
+				return "", ""
+			}
+			key := exprStr(sel.X)
+			if xs, ok := ast.Unparen(sel.X).(*ast.SelectorExpr); ok {
+				if k := fieldKey(info, xs); k != "" {
+					key = k
+				}
+			}
+			return key, fn.Name()
+		}
+		locks := false
+		for _, call := range callsIn(fb, false) {
+			if _, op := muKey(call); op == "Lock" || op == "RLock" {
+				locks = true
+			}
+		}
+		if !locks {
+			continue
+		}
+		f := NewFlow(c.P, fb, func(call *ast.CallExpr, obj types.Object) string {
+			if k, op := muKey(call); k != "" {
+				return op + "|" + k
+			}
+			return ""
+		})
+		f.NoInline = true
+		f.Effect = func(label string, call *ast.CallExpr, st Facts) {
+			op, k, _ := strings.Cut(label, "|")
+			switch op {
+			case "Lock":
+				st["held:"+k] = true
+			case "RLock":
+				st["rheld:"+k] = true
+			case "Unlock":
+				delete(st, "held:"+k)
+			case "RUnlock":
+				delete(st, "rheld:"+k)
+			}
+		}
+		f.Run()
+		for i, r := range f.Returns {
+			st := f.At[r]
+			for fact := range st {
+				var k, unlock string
+				switch {
+				case strings.HasPrefix(fact, "held:"):
+					k, unlock = strings.TrimPrefix(fact, "held:"), "Unlock"
+				case strings.HasPrefix(fact, "rheld:"):
+					k, unlock = strings.TrimPrefix(fact, "rheld:"), "RUnlock"
+				default:
+					continue
+				}
+				n++
+				c.Fn(fb.Root())
+				c.Decide(st.Has("deferred:"+unlock+"|"+k), rule, ordinal(ord, fmt.Sprintf("return#%d %s@%s", i+1, k, fnDisplay(fb))), r.Pos(), "the unlock is deferred",
+					fmt.Sprintf("this return is reached with %s locked on every path and no deferred unlock registered: the mutex stays locked after the function returns and every later Lock() of it blocks for ever", k))
+			}
+		}
+	}
+	c.Floor(rule, n, 6)
+}
+
+// noDynamicFormat (C17 / C19): user-controlled text is never a printf format.
+func noDynamicFormat(c *Check, a *Anchors, rule string) {
+	c.Rule(rule, "every call in Task's own code to a printf-style function (…, format string, args ...any) whose format is not a constant and that passes no arguments goes to a function that prints such a message verbatim (its body rewrites `format, args` to \"%s\", format when len(args) == 0, or it hands both on unchanged to a function that does): a task prefix, label or command text that contains '%' must appear in the output byte for byte, not as %!(NOVERB)")
+	// printf-like module functions and whether they are verbatim-safe
+	type pf struct {
+		fb      *FuncBody
+		fmtIdx  int
+		safe    bool
+		forward []*types.Func // callees the (format, args...) pair is handed to unchanged
+	}
+	pfs := map[*types.Func]*pf{}
+	isPrintfSig := func(sig *types.Signature) int {
+		if !sig.Variadic() || sig.Params().Len() < 2 {
+			return -1
+		}
+		last := sig.Params().At(sig.Params().Len() - 1)
+		sl, ok := last.Type().(*types.Slice)
+		if !ok {
+			return -1
+		}
+		if iface, ok := sl.Elem().Underlying().(*types.Interface); !ok || iface.NumMethods() != 0 {
+			return -1
+		}
+		prev := sig.Params().At(sig.Params().Len() - 2)
+		if b, ok := prev.Type().Underlying().(*types.Basic); !ok || b.Kind() != types.String {
+			return -1
+		}
+		return sig.Params().Len() - 2
+	}
+	for _, fb := range c.P.Bodies() {
+		if fb.Decl == nil || fb.Obj == nil || !strings.HasPrefix(fb.Pkg.PkgPath, Mod) {
+			continue
+		}
+		idx := isPrintfSig(fb.Obj.Type().(*types.Signature))
+		if idx < 0 {
+			continue
+		}
+		p := &pf{fb: fb, fmtIdx: idx}
+		info := fb.Info()
+		var params []*types.Var
+		for _, fld := range fb.Type.Params.List {
+			for _, id := range fld.Names {
+				if v, ok := info.Defs[id].(*types.Var); ok {
+					params = append(params, v)
+				}
+			}
+		}
+		if len(params) != idx+2 {
+			continue
+		}
+		fmtV, argsV := params[idx], params[idx+1]
+		// guard: if len(args) == 0 { format, args = "%s", []any{format} }
+		inspectBody(fb.Body, func(nd ast.Node) bool {
+			ifs, ok := nd.(*ast.IfStmt)
+			if !ok {
+				return true
+			}
+			be, ok := ast.Unparen(ifs.Cond).(*ast.BinaryExpr)
+			if !ok || be.Op != token.EQL || !constIs(info, be.Y, "0") {
+				return true
+			}
+			lc, ok := ast.Unparen(be.X).(*ast.CallExpr)
+			if !ok || !isBuiltin(info, lc, "len") || varOf(info, lc.Args[0]) != argsV {
+				return true
+			}
+			for _, st := range ifs.Body.List {
+				if as, ok := st.(*ast.AssignStmt); ok {
+					for i, l := range as.Lhs {
+						if varOf(info, l) == fmtV && i < len(as.Rhs) && constIs(info, as.Rhs[i], `"%s"`) {
+							p.safe = true
+						}
+					}
+				}
+			}
+			return true
+		})
+		for _, call := range callsIn(fb, true) {
+			fn, ok := callee(info, call).(*types.Func)
+			if !ok {
+				continue
+			}
+			sig, ok := fn.Type().(*types.Signature)
+			if !ok {
+				continue
+			}
+			ci := isPrintfSig(sig)
+			if ci < 0 || len(call.Args) != ci+2 || !call.Ellipsis.IsValid() {
+				continue
+			}
+			if varOf(info, call.Args[ci]) == fmtV && varOf(info, call.Args[ci+1]) == argsV {
+				p.forward = append(p.forward, fn)
+			}
+		}
+		pfs[fb.Obj] = p
+	}
+	for changed := true; changed; {
+		changed = false
+		for _, p := range pfs {
+			if p.safe || len(p.forward) == 0 {
+				continue
+			}
+			all := true
+			for _, f := range p.forward {
+				if q := pfs[f]; q == nil || !q.safe {
+					all = false
+				}
+			}
+			// forwarding functions that also print themselves are not considered: they must carry the guard
+			if all {
+				p.safe, changed = true, true
+			}
+		}
+	}
+	n := 0
+	ord := map[string]int{}
+	for _, fb := range c.P.Bodies() {
+		if !strings.HasPrefix(fb.Pkg.PkgPath, Mod) || bceSkipPkgs[fb.Pkg.PkgPath] {
+			continue
+		}
+		info := fb.Info()
+		for _, call := range callsIn(fb, false) {
+			var sig *types.Signature
+			var fn *types.Func
+			switch o := callee(info, call).(type) {
+			case *types.Func:
+				fn = o
+				sig, _ = o.Type().(*types.Signature)
+			case *types.Var:
+				sig, _ = o.Type().Underlying().(*types.Signature)
+			}
+			if sig == nil {
+				continue
+			}
+			idx := isPrintfSig(sig)
+			if idx < 0 || len(call.Args) != idx+1 {
+				continue // has arguments (or forwards args...): the format is used as a format on purpose
+			}
+			if constText(info, call.Args[idx]) != "" {
+				continue
+			}
+			if fn != nil && fn.Pkg() != nil && !strings.HasPrefix(fn.Pkg().Path(), Mod) && !strings.Contains(strings.ToLower(fn.Name()), "f") {
+				continue // Print/Println/Sprint style: (a ...any) after a string is not a format
+			}
+			n++
+			c.Fn(fb.Root())
+			name := "function value"
+			safe := false
+			if fn != nil {
+				name = calleeName(fn)
+				if p := pfs[fn.Origin()]; p != nil {
+					safe = p.safe
+				}
+			}
+			c.Decide(safe, rule, ordinal(ord, name+"@"+fnDisplay(fb.Root())), call.Pos(), "the callee prints an argument-less message verbatim",
+				fmt.Sprintf("`%s` is passed as the format of %s with no arguments, and %s does not print an argument-less message verbatim: a '%%' in that text (a task prefix, label, command or path) is interpreted as a formatting verb", exprStr(call.Args[idx]), name, name))
+		}
+	}
+	c.Floor(rule, n, 3)
+}
+
+// groupDropsOnlyEmpty (C17): the group closer may skip the block only when nothing at all was buffered.
+func groupDropsOnlyEmpty(c *Check, a *Anchors) {
+	c.Rule("group-drops-only-empty", "in the close method of every buffering writer of internal/output, a return that precedes the write to the underlying stream is guarded by exactly `<buffer>.Len() == 0` (nothing was written by the command): any weaker test (whitespace-only, shorter than …) silently drops bytes the command did write")
+	n := 0
+	for _, fb := range c.P.BodiesIn(PkgOutput) {
+		if fb.Decl == nil || fb.Decl.Recv == nil || !strings.EqualFold(fb.Decl.Name.Name, "close") {
+			continue
+		}
+		info := fb.Info()
+		// the first write to an io.Writer field of the receiver (or a call handing it on)
+		firstWrite := token.NoPos
+		inspectBody(fb.Body, func(nd ast.Node) bool {
+			call, ok := nd.(*ast.CallExpr)
+			if !ok {
+				return true
+			}
+			uses := false
+			ast.Inspect(call, func(m ast.Node) bool {
+				if sel, ok := m.(*ast.SelectorExpr); ok {
+					if s := info.Selections[sel]; s != nil && s.Kind() == types.FieldVal && types.TypeString(s.Obj().Type(), nil) == "io.Writer" {
+						uses = true
+					}
+				}
+				return true
+			})
+			if uses && (firstWrite == token.NoPos || call.Pos() < firstWrite) {
+				firstWrite = call.Pos()
+			}
+			return true
+		})
+		if firstWrite == token.NoPos {
+			continue // delegates to a helper (prefixed: writeOutputLines) — judged by prefix-line-complete
+		}
+		pm := parentMap(fb.Body)
+		for i, r := range returnsOf(fb.Body) {
+			if r.Pos() > firstWrite {
+				continue
+			}
+			n++
+			c.Fn(fb)
+			okGuard, cond := false, "no condition"
+			for p := pm[ast.Node(r)]; p != nil; p = pm[p] {
+				ifs, ok := p.(*ast.IfStmt)
+				if !ok || !within(r, ifs.Body) {
+					continue
+				}
+				cond = exprStr(ifs.Cond)
+				if be, ok := ast.Unparen(ifs.Cond).(*ast.BinaryExpr); ok && be.Op == token.EQL && constIs(info, be.Y, "0") {
+					if lc, ok := ast.Unparen(be.X).(*ast.CallExpr); ok {
+						if sel, ok := ast.Unparen(lc.Fun).(*ast.SelectorExpr); ok && sel.Sel.Name == "Len" {
+							if xs, ok := ast.Unparen(sel.X).(*ast.SelectorExpr); ok {
+								if s := info.Selections[xs]; s != nil && s.Kind() == types.FieldVal && strings.Contains(types.TypeString(s.Obj().Type(), nil), "bytes.Buffer") {
+									okGuard = true
+								}
+							}
+						}
+					}
+				}
+			}
+			c.Decide(okGuard, "group-drops-only-empty", fmt.Sprintf("early-return#%d@%s", i+1, fnDisplay(fb)), r.Pos(), "returns without writing only when the buffer is empty",
+				"the closer returns without emitting the block when `"+cond+"`: that is not `buffer.Len() == 0`, so output the command did produce (for example a blank separator line) is lost together with the begin/end lines")
+		}
+	}
+	c.Floor("group-drops-only-empty", n, 1)
+}
+
+// fieldNotClobberedOnError (C16 / C20): a call's value result reaches persistent state only after its error was checked.
+func fieldNotClobberedOnError(c *Check, a *Anchors, rule string) {
+	c.Rule(rule, "no assignment in Task's own code stores the value result of a (value, error) call directly into a field of an object that outlives the statement (`x.f, err = f(x.f)`: an update in place whose call consumes the field's current value), when the value is of a nil-able type: on failure the field is overwritten with nil before the error is looked at, and later users of the object — e.g. the include resolution that follows a fallback to the cached copy of a remote Taskfile — dereference it. The value goes through a local that is stored after the `err != nil` return")
+	n, sites := 0, 0
+	ord := map[string]int{}
+	for _, fb := range c.P.Bodies() {
+		if !strings.HasPrefix(fb.Pkg.PkgPath, Mod) || bceSkipPkgs[fb.Pkg.PkgPath] {
+			continue
+		}
+		info := fb.Info()
+		inspectBody(fb.Body, func(nd ast.Node) bool {
+			as, ok := nd.(*ast.AssignStmt)
+			if !ok || len(as.Lhs) != 2 || len(as.Rhs) != 1 {
+				return true
+			}
+			call, ok := ast.Unparen(as.Rhs[0]).(*ast.CallExpr)
+			if !ok {
+				return true
+			}
+			tv, ok := info.Types[call]
+			if !ok {
+				return true
+			}
+			tup, ok := tv.Type.(*types.Tuple)
+			if !ok || tup.Len() != 2 || !isErrorType(tup.At(1).Type()) {
+				return true
+			}
+			sites++
+			sel, ok := ast.Unparen(as.Lhs[0]).(*ast.SelectorExpr)
+			if !ok {
+				return true
+			}
+			s := info.Selections[sel]
+			if s == nil || s.Kind() != types.FieldVal {
+				return true
+			}
+			switch tup.At(0).Type().Underlying().(type) {
+			case *types.Pointer, *types.Interface, *types.Slice, *types.Map, *types.Chan, *types.Signature:
+			default:
+				return true // a zero number / string / struct cannot be dereferenced
+			}
+			// the object must outlive the function: rooted at a parameter, receiver or package variable (not a local literal)
+			rv := rootVar(info, sel.X)
+			if rv != nil && !isParamOf(info, fb.Root(), rv) && !isRecv(info, fb.Root(), rv) && rv.Parent() != rv.Pkg().Scope() {
+				if ok, _ := isLocalValue(info, fb.Root(), rv); ok {
+					return true
+				}
+			}
+			// an update in place: the call consumes the field's current value (so the field held something meaningful)
+			reads := false
+			ast.Inspect(call, func(m ast.Node) bool {
+				if rs, ok := m.(*ast.SelectorExpr); ok && info.Selections[rs] != nil && info.Selections[rs].Obj() == s.Obj() && exprStr(rs) == exprStr(sel) {
+					reads = true
+				}
+				return true
+			})
+			if !reads {
+				return true // first initialisation of the field: there is no previous value to lose, the constructor fails as a whole
+			}
+			n++
+			c.Fn(fb.Root())
+			c.Bad(rule, ordinal(ord, exprStr(sel)+"@"+fnDisplay(fb.Root())), as.Pos(),
+				fmt.Sprintf("`%s` is assigned straight from %s together with its error: when the call fails the field is nil (the old value is lost) before `err` is examined, and the object is used again afterwards (fallback paths dereference it)", exprStr(sel), exprStr(call.Fun)))
+			return true
+		})
+	}
+	c.Extra["value_error_assignments_inspected"] = sites
+	if n == 0 {
+		c.OK(rule, "all-sites", token.NoPos, fmt.Sprintf("%d (value, error) assignments inspected: none stores a nil-able value into a field before the error check", sites))
+	}
+	c.Floor(rule, sites, 100)
+}
+
+func isRecv(info *types.Info, fb *FuncBody, v *types.Var) bool {
+	if fb.Decl == nil || fb.Decl.Recv == nil || len(fb.Decl.Recv.List) == 0 || len(fb.Decl.Recv.List[0].Names) == 0 {
+		return false
+	}
+	return info.Defs[fb.Decl.Recv.List[0].Names[0]] == v
+}
+
+// isLocalValue: v is a local whose every definition is a composite literal / address of one / constructor call in this function.
+func isLocalValue(info *types.Info, fb *FuncBody, v *types.Var) (bool, string) {
+	defs := defsOf(info, fb.Body, v)
+	if len(defs) == 0 {
+		return false, ""
+	}
+	for _, d := range defs {
+		d = ast.Unparen(d)
+		if u, ok := d.(*ast.UnaryExpr); ok && u.Op == token.AND {
+			d = u.X
+		}
+		switch d.(type) {
+		case *ast.CompositeLit:
+		default:
+			return false, ""
+		}
+	}
+	return true, ""
 }
